@@ -321,11 +321,20 @@ func genTravOpts(r *RNG, api uint64) travOpts {
 		// boundary set: around the 4 KiB chunk a padding writer might use, plus one large value
 		o.dpad = pick(r, []uint64{0, 0, 0, 0, 1, 7, 1413, 4095, 4096, 4097, 8192})
 		o.ipad = pick(r, []uint64{0, 0, 0, 0, 1, 512, 4095, 4096, 4097, 8192})
-		if r.Chance(4) {
+		if r.Chance(1) { // the hand-made padding matrix always has it; keep random cases small
 			o.dpad = 65536
 		}
-		if r.Chance(4) {
+		if r.Chance(1) {
 			o.ipad = 65536
+		}
+	}
+	if api == 1 && r.Chance(6) { // only where the destination is the harness's capped buffer, never a file
+		// paddings no allocation can satisfy: make([]byte, n) panics above 2^48; the data offset still
+		// fits in 64 bits (unlike the wrap-around values below) while the index offset may wrap
+		if r.Bool() {
+			o.dpad = pick(r, []uint64{1<<48 + 1, 1 << 63, ^uint64(0) - 51})
+		} else {
+			o.ipad = pick(r, []uint64{1<<48 + 1, 1 << 63, ^uint64(0) - 99})
 		}
 	}
 	if api == 1 || api == 2 {
@@ -494,6 +503,14 @@ func fixedCases(c *Ctx) {
 			}
 		}
 	}
+	// paddings above the allocation limit, with and without an index
+	for _, hp := range [][3]uint64{{1<<48 + 1, 0, 0}, {^uint64(0) - 51, 7, 0}, {0, 1<<48 + 1, 0}, {7, ^uint64(0) - 99, 0x0400}, {0, 1 << 63, 0x300000}} {
+		for api := uint64(1); api <= 1; api++ { // NewSelectiveWriter only: its destination is a capped buffer
+			tc := &travCase{api: api, roots: []cid.Cid{twice.c}, sel: all, opts: travOpts{dpad: hp[0], ipad: hp[1], codec: hp[2]}, store: tstore}
+			emitTrav(c, tc, func(Val) bool { return true })
+			c.Count("fixed:padding-above-alloc-limit")
+		}
+	}
 	_ = r
 }
 
@@ -560,9 +577,9 @@ func init() {
 			if r.Chance(40) {
 				nTop = 2 + r.Intn(2)
 			}
-			bigChance := 7
+			bigChance := 3
 			if c.Thorough {
-				bigChance = 15
+				bigChance = 8
 			}
 			g := genDag(r, depth, nTop, r.Chance(bigChance))
 			if g.big {
